@@ -313,7 +313,7 @@ def values_decode(buf, pos, end, encoding, ptype, n, type_length, dictionary, no
         if dictionary is None:
             raise FormatError(f"{encoding} data page without a dictionary page")
         if n == 0:
-            return [], pos
+            return [], end          # nothing to decode; a width byte / empty run may still be there
         if pos >= end:
             raise FormatError("dictionary indices: missing bit-width byte")
         width = buf[pos]
@@ -1255,6 +1255,47 @@ def self_test(verbose=False):
                 nn = sum(1 for d in c.def_levels if d == c.leaf.max_def)
                 if nn != len(c.values):
                     fails.append(f"{name}: rg{gi} {c.leaf.path}: {len(c.values)} values for {nn} defined slots")
+    # --- must-fail guard: seeded corruptions of a third-party file that passes must each be reported
+    try:
+        fn = os.path.join(td, "test-null.parquet")
+        raw = open(fn, "rb").read()
+        idl = thrift_idl.load()
+        flen = struct.unpack("<I", raw[-8:-4])[0]
+        body = raw[:len(raw) - 8 - flen]
+
+        def rebuilt(mut):
+            fmd, _ = thrift_idl.dec(idl, "FileMetaData", raw[:-8], len(raw) - 8 - flen)
+            mut(fmd)
+            foot = thrift_idl.enc(idl, "FileMetaData", fmd)
+            return body + foot + struct.pack("<I", len(foot)) + MAGIC
+
+        def col(fmd):
+            return fmd["row_groups"][0]["columns"][0]["meta_data"]
+
+        if structural_check(read_file(rebuilt(lambda fmd: None))):
+            fails.append("must-fail guard: the re-encoded, unmodified fixture is not clean")
+        seeds = {
+            "num_rows": lambda fmd: fmd.__setitem__("num_rows", fmd["num_rows"] + 1),
+            "rg num_rows": lambda fmd: fmd["row_groups"][0].__setitem__("num_rows", 3),
+            "total_compressed_size": lambda fmd: col(fmd).__setitem__("total_compressed_size", col(fmd)["total_compressed_size"] + 1),
+            "total_uncompressed_size": lambda fmd: col(fmd).__setitem__("total_uncompressed_size", col(fmd)["total_uncompressed_size"] - 1),
+            "data_page_offset": lambda fmd: col(fmd).__setitem__("data_page_offset", col(fmd)["data_page_offset"] + 1),
+            "num_values": lambda fmd: col(fmd).__setitem__("num_values", col(fmd)["num_values"] + 1),
+            "codec": lambda fmd: col(fmd).__setitem__("codec", enums().CompressionCodec["GZIP"]),
+            "encodings": lambda fmd: col(fmd).__setitem__("encodings", [enums().Encoding["DELTA_BINARY_PACKED"]]),
+            "total_byte_size": lambda fmd: fmd["row_groups"][0].__setitem__("total_byte_size", 1),
+            "null_count": lambda fmd: fmd["row_groups"][0]["columns"][1]["meta_data"].__setitem__(
+                "statistics", {"null_count": 2}),
+        }
+        for name, mut in seeds.items():
+            if not structural_check(read_file(rebuilt(mut))):
+                fails.append(f"must-fail guard: corrupted {name} is not reported")
+        for name, data in (("magic", b"PAR2" + raw[4:]), ("footer length", raw[:-8] + struct.pack("<I", flen + 1) + MAGIC),
+                           ("truncated", raw[:-1])):
+            if not structural_check(read_file(data)):
+                fails.append(f"must-fail guard: corrupted {name} is not reported")
+    except Exception as e:
+        fails.append(f"must-fail guard crashed: {type(e).__name__}: {e}")
     # --- the decoders against hand-made streams from the published examples
     # hybrid: RLE run of 3 x value 5 (width 3), then bit-packed group 0..7 (spec example bytes 88 C6 FA)
     s = bytes([3 << 1, 5, (1 << 1) | 1, 0x88, 0xC6, 0xFA])
